@@ -343,7 +343,56 @@ def fold_in_fn(expr, fn, default=None):
     try:
         return fold(expr, fn.mod, env)
     except (Unknown, RecursionError):
-        return default
+        pass
+    # class-level constants read through self / cls / the class name:  `self.MAX_LINES`, `CheckBrace.BLANKS`
+    try:
+        sub = _with_class_constants(expr, fn)
+        if sub is not expr:
+            return fold(sub, fn.mod, env)
+    except (Unknown, RecursionError):
+        pass
+    return default
+
+
+def class_constants(cls) -> Dict[str, Any]:
+    """Foldable class-level assignments of *cls*, in order (a later one may use an earlier one: `B = A + 1`)."""
+    env: Dict[str, Any] = {}
+    for name, e in cls.attrs.items():
+        v = try_fold(e, cls.mod, env, default=_MISSING)
+        if v is not _MISSING:
+            env[name] = v
+    return env
+
+
+def _with_class_constants(expr, fn):
+    """*expr* with `self.X` / `cls.X` / `<Class>.X` replaced by the value expression of the class-level assignment X (own
+    class or a base of the analysed tree); *expr* itself when there is nothing to replace."""
+    prog = program()
+    own = fn
+    while own is not None and own.cls is None:
+        own = own.outer
+    mapping = {}
+    for n in ast.walk(expr):
+        if isinstance(n, ast.Attribute) and isinstance(n.ctx, ast.Load) and isinstance(n.value, ast.Name):
+            base = n.value.id
+            cname = own.cls.name if (base in ("self", "cls") and own is not None) else base if base in prog.classes else None
+            seen = set()
+            while cname is not None and cname in prog.classes and cname not in seen:
+                seen.add(cname)
+                c = prog.classes[cname]
+                if n.attr in c.attrs:
+                    consts = class_constants(c)
+                    if n.attr in consts:
+                        try:
+                            mapping[id(n)] = ast.parse(repr(consts[n.attr]), mode="eval").body
+                        except SyntaxError:
+                            pass
+                    break
+                cname = c.bases[0] if c.bases else None
+    if not mapping:
+        return expr
+    from .dataflow import _clone
+    return _clone(expr, mapping)
 
 
 _MISSING = object()
